@@ -19,7 +19,7 @@ Qed.
 Lemma rxo_b_spec off req : rxo_b off req = true <-> RxO off req.
 Proof.
   unfold rxo_b, RxO. rewrite forallb_forall. split.
-  - intros H p. apply rxo_pb_spec, H. destruct p; cbn; tauto.
+  - intros H p. destruct p; try (apply rxo_pb_spec, H; cbn; tauto). exact I.
   - intros H p _. apply rxo_pb_spec, H.
 Qed.
 
@@ -34,9 +34,10 @@ Lemma bad_iff p off req :
    | PLiveliness => both (q_liveliness off) (q_liveliness req) bad_liveliness
    | PReliability => both (q_reliability off) (q_reliability req) bad_reliability
    | PDestinationOrder => both (q_dest_order off) (q_dest_order req) bad_dest_order
+   | POther => false
    end) = negb (rxo_pb p off req).
 Proof.
-  destruct p; unfold rxo_pb, both; cbn; rewrite negb_involutive.
+  destruct p; unfold rxo_pb, both; cbn; try rewrite negb_involutive; try reflexivity.
   all: repeat match goal with
        | |- context [match ?x with Some _ => _ | None => _ end] => destruct x
        end; cbn; try reflexivity.
@@ -99,21 +100,72 @@ Proof.
 Qed.
 
 (* The oracle accepts exactly the verdicts the property allows, and the model always passes it. *)
+Definition verdict_P (c : case) (v : option policy_id) : Prop :=
+  match v with
+  | None => RxO (fst c) (snd c)
+  | Some POther => False
+  | Some p => ~ RxO_p p (fst c) (snd c)
+  end.
+
+Lemma verdict_ok_spec c v : verdict_ok c v = true <-> verdict_P c v.
+Proof.
+  destruct v as [p|]; [|apply rxo_b_spec].
+  assert (G : forall q, negb (rxo_pb q (fst c) (snd c)) = true <-> ~ RxO_p q (fst c) (snd c)).
+  { intros q. rewrite negb_true_iff, <- rxo_pb_spec.
+    destruct (rxo_pb q (fst c) (snd c)); intuition congruence. }
+  destruct p; unfold verdict_ok, verdict_P; try apply G.
+  split; [discriminate|tauto].
+Qed.
+
+Definition side_P (c : case) (s : side) : Prop :=
+  match s with
+  | SNotRun => True
+  | SSilent => False
+  | SMatched => verdict_P c None
+  | SIncompatible p => verdict_P c (Some p)
+  end.
+
+Lemma side_ok_spec c s : side_ok c s = true <-> side_P c s.
+Proof.
+  destruct s; cbn [side_ok side_P]; try apply verdict_ok_spec.
+  - tauto.
+  - split; [discriminate|tauto].
+Qed.
+
 Lemma ok_spec c o :
   ok c o = true <->
-  match o with None => RxO (fst c) (snd c) | Some p => ~ RxO_p p (fst c) (snd c) end.
+  verdict_P c (o_verdict o) /\ side_P c (o_writer_side o) /\ side_P c (o_reader_side o)
+  /\ sides_agree (o_writer_side o) (o_reader_side o) = true.
 Proof.
-  destruct o as [p|]; cbn.
-  - rewrite negb_true_iff, <- rxo_pb_spec. destruct (rxo_pb p (fst c) (snd c)); intuition congruence.
-  - apply rxo_b_spec.
+  unfold ok. rewrite !andb_true_iff, verdict_ok_spec, !side_ok_spec. tauto.
+Qed.
+
+Lemma compliance_not_other off req : compliance off req <> Some POther.
+Proof.
+  rewrite compliance_unfold.
+  repeat match goal with |- context [if ?b then _ else _] => destruct b end; discriminate.
+Qed.
+
+Lemma run_verdict_ok c : verdict_ok c (compliance (fst c) (snd c)) = true.
+Proof.
+  apply verdict_ok_spec. destruct (compliance (fst c) (snd c)) as [p|] eqn:E; cbn.
+  - pose proof (compliance_cause _ _ _ E) as H.
+    destruct p; try exact H. exfalso. eapply compliance_not_other, E.
+  - apply compliance_none_iff, E.
 Qed.
 
 Lemma run_ok c : ok c (run c) = true.
 Proof.
-  apply ok_spec. unfold run. destruct (compliance (fst c) (snd c)) as [p|] eqn:E.
-  - apply compliance_cause; assumption.
-  - apply compliance_none_iff; assumption.
+  unfold ok, run; cbn [o_verdict o_writer_side o_reader_side].
+  pose proof (run_verdict_ok c) as H.
+  destruct (compliance (fst c) (snd c)) as [p|]; cbn [side_of side_ok sides_agree is_matched];
+    rewrite H; reflexivity.
 Qed.
+
+(* both call sites evaluate the same function of the same (offered, requested) pair: in the model
+   the two sides are literally the same term *)
+Lemma sides_same c : o_writer_side (run c) = o_reader_side (run c).
+Proof. reflexivity. Qed.
 
 (* A verdict "matched" where the rules say otherwise is impossible, and vice versa (both
    directions spelled out because the property says "if and only if"). *)
